@@ -410,9 +410,16 @@ func (w *winEnv) window(st *Stats) bool {
 	var skip atomic.Int64
 	skip.Store(int64(c.Hit))
 	var agid atomic.Int64
+	timed := os.Getenv("VF_TIMED") != ""
 	verifhook.SetPause(func(p string) {
 		if p == c.Point && goid() == agid.Load() && skip.Add(-1) < 0 && armed.CompareAndSwap(true, false) {
 			close(hit)
+			if timed {
+				// race-detector mode: hold A by sleeping. A controlled release (channel) would add a
+				// happens-before edge from the other calls to the rest of A and hide races from the detector.
+				time.Sleep(2500 * time.Microsecond)
+				return
+			}
 			<-release
 		}
 	})
